@@ -380,8 +380,19 @@ fn run_proj(p: Proj) -> String {
             trailing_newline: p.trailing,
         };
         let (tx, rx) = mpsc::channel();
+        let cyc = std::sync::Arc::new(std::sync::atomic::AtomicBool::new(false));
+        let cyc2 = cyc.clone();
         std::thread::spawn(move || {
-            let r = std::panic::catch_unwind(|| Txtpp::run(cfg).is_ok());
+            let r = std::panic::catch_unwind(|| match Txtpp::run(cfg) {
+                Ok(()) => true,
+                Err(e) => {
+                    // the KIND of failure matters for C05: a circular-dependency report
+                    if format!("{e:?}").contains("Circular dependencies") {
+                        cyc2.store(true, Ordering::SeqCst);
+                    }
+                    false
+                }
+            });
             let _ = tx.send(r);
         });
         let timeout = Duration::from_secs(
@@ -426,7 +437,13 @@ fn run_proj(p: Proj) -> String {
             let _ = std::fs::remove_dir_all(&scratch);
             std::process::exit(3);
         }
-        line = format!("{} T {} N {}", verdict, tr.join(","), choices.join(","));
+        line = format!(
+            "{} T {} N {}{}",
+            verdict,
+            tr.join(","),
+            choices.join(","),
+            if cyc.load(Ordering::SeqCst) { " K cyc" } else { "" }
+        );
     }
     if PANICKED.load(Ordering::SeqCst) && !line.starts_with("panic") {
         // some thread panicked although the run returned
